@@ -2,7 +2,7 @@
 # mutest.sh <patch.diff> <tier> <prop> [<prop>...]
 # Apply a seeded change to /repo, run the given checks, and undo the change straight afterwards.
 patch=$1; tier=$2; shift 2
-cd "$(dirname "$0")"
+cd "$(dirname "$0")"; mkdir -p work
 if ! git -C /repo diff --quiet; then echo "/repo has uncommitted changes; refusing"; exit 2; fi
 git -C /repo apply "$patch" || { echo "patch does not apply"; exit 2; }
 trap 'git -C /repo checkout -- . ; git -C /repo clean -fdq src' EXIT INT TERM
